@@ -113,6 +113,7 @@ def SVal.wf : SVal → Bool
   | .struct_ fs | .structVariant _ fs => wfFields fs
   | .numberLit s => Number.isNumber s
   | _ => true
+termination_by structural p => p
 def wfList : List SVal → Bool
   | [] => true
   | x :: xs => x.wf && wfList xs
@@ -140,6 +141,7 @@ def SVal.setHints (exact : Bool) : SVal → SVal
   | .struct_ fs => .struct_ (setHintsFields exact fs)
   | .structVariant n fs => .structVariant n (setHintsFields exact fs)
   | p => p
+termination_by structural p => p
 def setHintsList (exact : Bool) : List SVal → List SVal
   | [] => []
   | x :: xs => x.setHints exact :: setHintsList exact xs
